@@ -172,7 +172,7 @@ CHECKS["C08"] = {
 
 CHECKS["C09"] = {
     "subs": [{"pkg": "fuzz", "fuzz": "FuzzAuthHeader", "quick": 1, "thorough": 1, "fuzztime_thorough": 180, "workers": 16},
-             {"pkg": "sys", "test": "TestC09", "quick": 240, "thorough": 30000, "shards_quick": 8, "shards_thorough": 12, "shrinktime": "10s", "timeout_quick": 900, "timeout_thorough": 7200}],
+             {"pkg": "sys", "test": "TestC09", "quick": 240, "thorough": 12000, "shards_quick": 8, "shards_thorough": 12, "shrinktime": "10s", "timeout_quick": 900, "timeout_thorough": 7200}],
     "engine": "SYS",
     "level_text": "Generated (route, credential) pairs on real protected ports: the route table of each port is enumerated from the running gin engine, key configurations and token defects are drawn, validity is known by construction; every invalid pair must be answered 401 without reaching the upstream, the registry or a peer. Exploration only.",
     "technique": "PBT (rapid) over enumerated routes x constructed tokens; oracle = validity by construction + observation points behind the routes",
